@@ -33,6 +33,9 @@ type RCase struct {
 	Before int `json:"before"` // messages per peer before the loss
 	After  int `json:"after"`  // messages per peer after the peer is back
 	N      int `json:"n"`
+	// Names: the peers listen on, and are addressed as, "localhost:<port>" instead of an IP literal:
+	// the address in a PID is a name, the address of the connection is not
+	Names bool `json:"names,omitempty"`
 }
 
 type peer struct {
@@ -44,7 +47,22 @@ type peer struct {
 	ch   chan string
 }
 
-func startPeer(addr string) (*peer, error) {
+func startPeer(addr string, names bool) (*peer, error) {
+	if addr == "" && names {
+		// a free port of this process's block, held under its name
+		var last error
+		for try := 0; try < 5 && addr == ""; try++ {
+			a, err := freeAddr()
+			if err != nil {
+				last = err
+				continue
+			}
+			addr = "localhost" + a[strings.LastIndex(a, ":"):]
+		}
+		if addr == "" {
+			return nil, fmt.Errorf("harness: %v", last)
+		}
+	}
 	e, r, a, err := node(addr)
 	if err != nil {
 		return nil, err
@@ -90,6 +108,8 @@ func runRestart(c RCase) error {
 		cond    = sync.NewCond(&mu)
 		unreach = map[string]int{}
 		dls     = map[string][]string{} // addr -> payloads of dead letters naming its stream writer
+		known   = map[string]bool{}     // the addresses A sends to
+		stray   string                  // a RemoteUnreachableEvent for an address A never sent to
 	)
 	mon := a.SpawnFunc(func(ctx *actor.Context) {
 		mu.Lock()
@@ -97,6 +117,9 @@ func runRestart(c RCase) error {
 		switch ev := ctx.Message().(type) {
 		case actor.RemoteUnreachableEvent:
 			unreach[ev.ListenAddr]++
+			if !known[ev.ListenAddr] && stray == "" {
+				stray = ev.ListenAddr
+			}
 		case actor.DeadLetterEvent:
 			if ev.Target != nil && strings.HasPrefix(ev.Target.ID, "stream/") {
 				dls[strings.TrimPrefix(ev.Target.ID, "stream/")] = append(dls[strings.TrimPrefix(ev.Target.ID, "stream/")], fmt.Sprintf("%T", ev.Message))
@@ -121,7 +144,7 @@ func runRestart(c RCase) error {
 	}
 	peers := make([]*peer, c.Peers)
 	for i := range peers {
-		if peers[i], err = startPeer(""); err != nil {
+		if peers[i], err = startPeer("", c.Names); err != nil {
 			return err
 		}
 	}
@@ -133,6 +156,11 @@ func runRestart(c RCase) error {
 			}
 		}
 	}()
+	mu.Lock()
+	for _, p := range peers {
+		known[p.addr] = true
+	}
+	mu.Unlock()
 	send := func(p *peer, s string) {
 		a.Send(actor.NewPID(p.addr, "t/0"), &remote.TestMessage{Data: []byte(s)})
 	}
@@ -165,8 +193,14 @@ func runRestart(c RCase) error {
 	}
 	for i, p := range peers {
 		addr := p.addr
-		if !waitFor(wait, func() bool { return unreach[addr] >= 1 }) {
+		if !waitFor(wait, func() bool { return unreach[addr] >= 1 || stray != "" }) {
 			return fmt.Errorf("%w: no RemoteUnreachableEvent for peer %d after it stopped", errInconclusive, i)
+		}
+		mu.Lock()
+		st := stray
+		mu.Unlock()
+		if st != "" {
+			return fmt.Errorf("the peers %s... went away; A published a RemoteUnreachableEvent for %q, an address it never sent anything to (the event names the address the messages were sent to: that is what a later send will use again)", peers[0].addr, st)
 		}
 	}
 	// ... and the failed connection is over: its stream writer has unregistered (the writer reports
@@ -192,7 +226,7 @@ func runRestart(c RCase) error {
 	old := peers
 	peers = make([]*peer, c.Peers)
 	for i := range peers {
-		if peers[i], err = startPeer(old[i].addr); err != nil {
+		if peers[i], err = startPeer(old[i].addr, c.Names); err != nil {
 			return err
 		}
 	}
@@ -254,7 +288,7 @@ func TestPeerRestart(t *testing.T) {
 	for i := 0; i < n; i++ {
 		// a pure function of the seed and the episode number (the episodes run in parallel)
 		h := seed*2654435761 + uint64(i)*40503
-		cases[i] = RCase{Peers: 8 + int(h%25), Before: int((h / 7) % 4), After: 1 + int((h/31)%3), N: i}
+		cases[i] = RCase{Peers: 8 + int(h%25), Before: int((h / 7) % 4), After: 1 + int((h/31)%3), N: i, Names: i%2 == 1}
 		wg.Add(1)
 		go func(i int) {
 			defer wg.Done()
@@ -272,7 +306,11 @@ func TestPeerRestart(t *testing.T) {
 			st.Fail(cases[i], err)
 			t.Fatalf("%v", err)
 		}
-		st.Done(cases[i], true, "peer-restart-episode", fmt.Sprintf("peers>=%d", cases[i].Peers/8*8))
+		nm := ""
+		if cases[i].Names {
+			nm = "peers-addressed-by-host-name"
+		}
+		st.Done(cases[i], true, "peer-restart-episode", fmt.Sprintf("peers>=%d", cases[i].Peers/8*8), nm)
 	}
 }
 
